@@ -59,7 +59,9 @@ pub fn walk_args(input: &Value, files0: Option<&std::path::Path>) -> Vec<String>
     if form % 2 == 0 {
         depth_opts(&mut a);
     }
-    if cfg["depth"].as_bool().unwrap_or(false) {
+    // -depth is a global option: it may also come after the tests and actions it affects
+    let depth_last = form % 7 == 3;
+    if cfg["depth"].as_bool().unwrap_or(false) && !depth_last {
         a.push(if form % 3 == 0 { "-depth".into() } else { "-d".into() });
     }
     if cfg["sorted"].as_bool().unwrap_or(false) {
@@ -103,6 +105,9 @@ pub fn walk_args(input: &Value, files0: Option<&std::path::Path>) -> Vec<String>
                 a.push("-print0".into());
             }
         }
+    }
+    if cfg["depth"].as_bool().unwrap_or(false) && depth_last {
+        a.push("-depth".into());
     }
     a
 }
